@@ -35,7 +35,7 @@ TEMPLATES = {
     "ns": "{% set ns = namespace(c=0) %}{% for i in items %}{% set ns.c = ns.c + i %}{% endfor %}{{ ns.c }}",
     "loopstate": "{% for i in items %}{{ loop.changed(i % 2) }}{{ loop.cycle('a', 'b') }}{{ loop.revindex }}{% endfor %}",
     "cycler": "{% set c = cycler('a', 'b') %}{{ c.next() }}{{ c.next() }}{{ c.current }}{% set j = joiner(',') %}{{ j() }}{{ j() }}x",
-    "filters": "{{ items|sort(reverse=true)|join(',') }}{{ items|map('string')|list|length }}{{ d|dictsort }}{{ items|sum(start=0) }}{{ objs|map(attribute='v')|list }}{{ items|reverse|first }}{{ nested|first|first }}{{ objs|groupby('v')|list|length }}{{ objs|list|length }}{{ objs|unique(attribute='v')|list|length }}{{ items|select('odd')|list }}{{ items|batch(2)|list }}{{ nested|sum(start=[]) }}{{ items|join(',') }}{{ items|join }}{{ objs|join('/', attribute='v') }}{{ nested|join('-') }}{{ items|indent }}",
+    "filters": "{{ items|sort(reverse=true)|join(',') }}{{ items|map('string')|list|length }}{{ d|dictsort }}{{ items|sum(start=0) }}{{ objs|map(attribute='v')|list }}{{ items|reverse|first }}{{ nested|first|first }}{{ objs|groupby('v')|list|length }}{{ objs|list|length }}{{ objs|unique(attribute='v')|list|length }}{{ items|select('odd')|list }}{{ items|batch(2)|list }}{{ nested|sum(start=[]) }}{{ items|join(',') }}{{ items|join }}{{ objs|join('/', attribute='v') }}{{ nested|join('-') }}",
     "child": "{% extends 'base' %}{% block a %}ca{{ x }}{{ super() }}{% endblock %}",
     "macro": "{% macro m(a, b=items) %}({{ a }}{{ b|length }}{{ varargs }}{{ kwargs|dictsort }}){% endmacro %}{{ m(1) }}{{ m(2, 3, 4, k=x) }}",
     "tojson_indent": "{{ d|tojson(indent=2) }}|{{ items|tojson(2) }}",
